@@ -47,7 +47,7 @@ Record qshared := mkSh {
   g_settled : list cevt;        (* events whose enqueue has put them into queueList (newest first) *)
   g_putbacks : nat;             (* how many times processIf / processUntil have put events back *)
   (* ghosts of the wake-up argument (QConcWake.v) *)
-  g_awake : list nat;           (* threads that returned from wait / waitFor observing work and have not since found the queue empty or taken all of it *)
+  g_awake : list nat;           (* threads that returned from wait / waitFor observing work and have not since found the queue empty, taken all of it, or gone to wait again *)
   g_under : bool                (* a DisableQueueNotify was destroyed that had not been constructed (queueNotifyCounter went negative) *)
 }.
 
@@ -316,7 +316,7 @@ Definition wait_loop (timed : bool) : list instr :=
   eval_can_process ++
   [IIf [] (fun _ lo => lb lo)
        [ILocal [] (fun t sh lo => (sh_awake sh t, lo_owes (lo_res lo true) false))]     (* ghost: returns having observed work *)
-       [ILocal [] (fun _ sh lo => (sh, lo_owes lo true));      (* ghost: once woken (or timed out) this thread has the wake-up in its hands *)
+       [ILocal [] (fun t sh lo => (sh_unawake sh t, lo_owes lo true));   (* ghosts: about to wait again; once woken (or timed out) it has the wake-up in its hands *)
         ICvWait timed;
         IIf [] (fun _ lo => ltimedout lo)
             (eval_can_process ++
